@@ -48,7 +48,19 @@ func c03Lit(w *W, s *parseSession, lit []byte, harness string) {
 				break
 			}
 			got := docs[0].Elems[0]
-			if got.Render() != wantR {
+			if site == 0 && bad == "" {
+				// the bulk float accessor must expose the same number (as float64)
+				if it, nerr := navigate(pj, vpath{0}, 0); nerr == nil {
+					if arr, aerr := it.Array(nil); aerr == nil {
+						fs, ferr := arr.AsFloat()
+						if ferr != nil || len(fs) != 1 || math.Float64bits(fs[0]) != math.Float64bits(modelFloat(want)) {
+							bad = fmt.Sprintf("Array.AsFloat() of [%s] = %v (%v), the literal's value as float64 is %v", clip(string(lit)), fs, ferr, modelFloat(want))
+							fp = "AsFloat/" + kindName(want.K)
+						}
+					}
+				}
+			}
+			if bad == "" && got.Render() != wantR {
 				cls := "value"
 				if got.K != want.K {
 					cls = "type"
